@@ -416,3 +416,5 @@ def run(ctx, chk, tier):
     check_accuracy(ctx, chk)
     from . import c10
     c10.purity(ctx, chk, only=("ConfusionMatrix.",), strict=False)
+    # indexing / derived matrices built by a shallow copy must not carry the parent's cached one-vs-all (or any other lazily filled) state
+    c10.copy_derivations(ctx, chk, rule="R05.5")
